@@ -251,9 +251,10 @@ func clip(s string, n int) string {
 }
 
 // settle = the server's own idle predicates, fast policy (3 consecutive quiet polls).  The child itself gives up
-// after 120 s; a world as small as ours is idle within milliseconds, so 25 s without an answer means that some
+// after 120 s; a world as small as ours is idle within milliseconds, so no answer within that time means that some
 // instance never reports idle again (fateNeverIdle; the driver has then asked the child for a goroutine dump).
-const settleTimeout = 25 * time.Second
+// (25 s proved too short on a machine running sixteen other server processes: one false candidate in a thorough run.)
+const settleTimeout = 100 * time.Second
 
 func (k *conn) settle() (fate, string) {
 	if _, err := k.c.Call(drive.ChildRequest{Op: "settle"}, settleTimeout); err != nil {
